@@ -2823,6 +2823,24 @@ func c02Targeted(t *testing.T, out *c02Out, seed int64) {
 				}
 			}
 		}
+		// (i) the authorization endpoint: a valid signed request object by every delivery, then every SINGLE defect of the delivery /
+		//     signature / client binding / dispatch alone (twice: the defects draw their variant), the rest of the request being valid
+		{
+			var grid [][]string
+			for k := 0; k < 6; k++ {
+				grid = append(grid, nil)
+			}
+			for rep := 0; rep < 2; rep++ {
+				for _, d := range c02JarDefects {
+					grid = append(grid, []string{d})
+				}
+			}
+			for _, ds := range grid {
+				req, _ := g.authRequest(nil)
+				g.toAuthz(&req, ds)
+				out.emit(&req, w.exec(&req))
+			}
+		}
 		w.ctrl.Finish()
 	}
 	// (b)
